@@ -71,8 +71,15 @@ def cases_for(ctx):
     cases.append({'behaviours': [E, 'hang', E, D], 'recycle': 3, 'consume': ['close', 3], 'companion': True})
     # a timeout that is not a small number of seconds: "within roughly that timeout" does not depend on how long the timeout is
     cases.append({'behaviours': [E, 'hang', E], 'recycle': 3, 'timeout': 16.0, 'consume': 'full'})
+    # a timeout of zero: every replay that does not answer at once is given up at once (not "no timeout")
+    cases.append({'behaviours': ['hang', 'hang'], 'recycle': 3, 'timeout': 0, 'consume': 'full'})
+    # the ids come from a generator of the caller whose clean-up fails / that swallows GeneratorExit; the run is abandoned
+    cases.append({'behaviours': [E, D, E, E, E], 'recycle': 3, 'consume': ['close', 2], 'ids_iterator': 'close_raises'})
+    cases.append({'behaviours': [E, D, E, E, E], 'recycle': 2, 'consume': ['raise', 2], 'ids_iterator': 'ignores_generator_exit'})
     if ctx.quick:
         return cases
+    cases.append({'behaviours': [E, D, E, E], 'recycle': 2, 'consume': ['drop', 1], 'ids_iterator': 'close_raises'})
+    cases.append({'behaviours': [E, 'hang', E], 'recycle': 2, 'timeout': 0.0, 'consume': ['close', 2]})
     cases.append({'behaviours': [E, D, E], 'recycle': 1, 'consume': ['raise', 2], 'companion': True})
     cases.append({'behaviours': ['exit', E, 'hang'], 'recycle': 2, 'timeout': 24.0, 'consume': 'full'})
     cases.append({'behaviours': [E, 'hang', E, E], 'recycle': 2, 'consume': 'full', 'via_studio': True})
